@@ -175,8 +175,8 @@ func checkNoMapped(c *runlib.Ctx, ic bcase) {
 // customAddr is a net.Addr of the caller's own with an AddrPort method.
 type customAddr struct{ ap netip.AddrPort }
 
-func (a customAddr) Network() string         { return "custom" }
-func (a customAddr) String() string          { return a.ap.String() }
+func (a customAddr) Network() string          { return "custom" }
+func (a customAddr) String() string           { return a.ap.String() }
 func (a customAddr) AddrPort() netip.AddrPort { return a.ap }
 
 // plainAddr is a net.Addr without an AddrPort method.
@@ -649,7 +649,7 @@ func checkSort(c *runlib.Ctx, fam string, in []netip.Addr, prefer int, desc stri
 	for i := 1; i < len(got); i++ {
 		ca, cb := sortClass(got[i-1], prefer), sortClass(got[i], prefer)
 		if ca > cb {
-			fail(fmt.Sprintf("element %d (%s) comes after element %d of a later partition", i, addrStrings(got[i:i+1])[0], i-1))
+			fail(fmt.Sprintf("element %d (%s) comes after element %d of a later partition", i, addrStrings(got[i : i+1])[0], i-1))
 
 			return
 		}
